@@ -133,11 +133,11 @@ var plans = map[string]*plan{
 	"C08": {
 		Level: "exploration",
 		Rule: "sequential histories (20..50 steps, synctest) over 10 topics: retained / plain / empty-payload (clearing) publishes at QoS 0..2 by 3..5 raw clients and Server.Publish, new subscriptions (16 literal and wildcard filters, 1..3 per request, granted 0..2) by raw clients and Server.Subscribe, unsubscribes, and filler traffic of more than two ring sizes. Model: topic -> (uid, QoS) last-writer-wins, cleared by an empty retained payload. " +
-			"At every new subscription the PUBLISH packets after the SUBACK must be exactly one per (filter, matching stored topic), retain=1, QoS min(stored, granted), CRC-correct payload of the model's current uid; live forwards are checked with the C01 oracle and must carry retain=0. Concurrent (real time): one writer per topic publishes retained versions 1,2,3.. of different lengths while 2..4 subscribers subscribe/unsubscribe; every retained delivery must pass its CRC, versions must not go backwards per subscriber, and the per-topic history (write = retained publish, read = new subscription) must be linearizable w.r.t. a register model (porcupine). distinct = (filter shape, granted QoS, number of stored topics) + run configurations.",
-		Quick:          []batchSpec{{Test: "TestC08", N: 8, Timeout: 15 * m}, {Test: "TestC08Conc", N: 4, Timeout: 15 * m}},
-		Thorough:       []batchSpec{{Test: "TestC08", N: 16, Timeout: 60 * m}, {Test: "TestC08Conc", N: 16, Timeout: 60 * m}, {Test: "TestC08Conc", N: 4, Race: true, Timeout: 60 * m}},
+			"At every new subscription the PUBLISH packets after the SUBACK must be exactly one per (filter, matching stored topic), retain=1, QoS min(stored, granted), CRC-correct payload of the model's current uid; live forwards are checked with the C01 oracle and must carry retain=0. Concurrent (real time): one writer per topic publishes retained versions 1,2,3.. of different lengths while 2..4 subscribers subscribe/unsubscribe; every retained delivery must pass its CRC, versions must not go backwards per subscriber, and the per-topic history (write = retained publish, read = new subscription) must be linearizable w.r.t. a register model (porcupine). Seam (real time): one writer (network connection or Server.Publish) publishes retained versions 1..150-400 while 2..5 subscribers subscribe, stay up to 1.5 ms and unsubscribe; within one subscription no live forward may repeat, and having been handed retained version k every version from k+1 to the newest one received must have arrived as a live forward (no update lost between the retained copy and the forwards). distinct = (filter shape, granted QoS, number of stored topics) + run configurations.",
+		Quick:          []batchSpec{{Test: "TestC08", N: 8, Timeout: 15 * m}, {Test: "TestC08Conc", N: 4, Timeout: 15 * m}, {Test: "TestC08Seam", N: 4, Timeout: 15 * m}},
+		Thorough:       []batchSpec{{Test: "TestC08", N: 16, Timeout: 60 * m}, {Test: "TestC08Conc", N: 16, Timeout: 60 * m}, {Test: "TestC08Seam", N: 8, Timeout: 60 * m}, {Test: "TestC08Conc", N: 4, Race: true, Timeout: 60 * m}},
 		EvalStats:      []string{"c08.subscriptions", "c08.retained_publishes", "c08.conc.ops"},
-		Floors:         map[string]int64{"c08.histories": 1100, "c08.subscriptions": 10000, "c08.retained_deliveries": 15000, "c08.clears": 3000, "c08.filler_rounds": 3000, "c08.conc.histories": 110, "c08.conc.retained_deliveries": 20000, "classes": 150},
+		Floors:         map[string]int64{"c08.histories": 1100, "c08.subscriptions": 10000, "c08.retained_deliveries": 15000, "c08.clears": 3000, "c08.filler_rounds": 3000, "c08.conc.histories": 110, "c08.conc.retained_deliveries": 20000, "c08.seam.cases": 44, "c08.seam.retained_then_forwards": 3000, "classes": 150},
 		FloorsThorough: map[string]int64{"c08.histories": 35000, "classes": 200},
 		Assumptions:    []string{"quiescence by synctest.Wait()", "a retained publish has certainly taken effect when the publisher's next packet is acknowledged (PUBACK is written before the store is updated)"},
 	},
@@ -205,11 +205,11 @@ var plans = map[string]*plan{
 	"C20": {
 		Level: "exploration",
 		Rule: "Client.Connect against a scripted TCP peer answering 27 CONNACK variants (codes 0..5 x SessionPresent, codes 6/255, reserved bits, wrong fixed-header flags, remaining length 0/1/3, cut packets, other packet types, garbage incl. an unterminated length, close without answer, silence until the 1 s connect timeout): result must be nil iff code 0, the ConnackCode for 1..5, an error otherwise; no panic; socket closed; no goroutine with a library frame left. " +
-			"Dispatch: sessions of 10..35 steps of Subscribe (1..3 filters, own callback per request, some filters refused with 0x80), Unsubscribe, inbound PUBLISH at QoS 0..2 on 10 topics incl. never-subscribed ones, QoS 2 with DUP repeats and repeated PUBREL; after a PINGREQ/PINGRESP barrier each request's callback must have been invoked exactly once per delivered message matching one of its active filters and never otherwise; Disconnect leaves no library goroutine. Burst-then-close: after a completed Subscribe the server writes 5..64 matching PUBLISH packets in one write and closes at once while the first callback dwells 0..39 ms; at the client's teardown-finished event the callback must have run once per message, in order. distinct = connect answers + (topic shape, QoS, number of requests).",
-		Quick:          []batchSpec{{Test: "TestC20", N: 8, Timeout: 15 * m}, {Test: "TestC20BurstClose", N: 2, Timeout: 10 * m}},
-		Thorough:       []batchSpec{{Test: "TestC20", N: 16, Timeout: 60 * m}, {Test: "TestC20BurstClose", N: 4, Timeout: 30 * m}},
+			"Dispatch: sessions of 10..35 steps of Subscribe (1..3 filters, own callback per request, some filters refused with 0x80), Unsubscribe, inbound PUBLISH at QoS 0..2 on 10 topics incl. never-subscribed ones, QoS 2 with DUP repeats and repeated PUBREL; after a PINGREQ/PINGRESP barrier each request's callback must have been invoked exactly once per delivered message matching one of its active filters and never otherwise; Disconnect leaves no library goroutine. Burst-then-close: after a completed Subscribe the server writes 5..64 matching PUBLISH packets in one write and closes at once while the first callback dwells 0..39 ms; at the client's teardown-finished event the callback must have run once per message, in order. QoS 2 bursts: after 0..39 QoS 2 deliveries completed one by one the server has 17..76 open at once and releases them in order; one callback per message, in order, every PUBREL answered. distinct = connect answers + (topic shape, QoS, number of requests).",
+		Quick:          []batchSpec{{Test: "TestC20", N: 8, Timeout: 15 * m}, {Test: "TestC20BurstClose", N: 2, Timeout: 10 * m}, {Test: "TestC20Qos2Burst", N: 2, Timeout: 10 * m}},
+		Thorough:       []batchSpec{{Test: "TestC20", N: 16, Timeout: 60 * m}, {Test: "TestC20BurstClose", N: 4, Timeout: 30 * m}, {Test: "TestC20Qos2Burst", N: 4, Timeout: 30 * m}},
 		EvalStats:      []string{"c20.connect_cases", "c20.inbound"},
-		Floors:         map[string]int64{"c20.connect_cases": 27, "c20.sessions": 230, "c20.inbound": 2000, "c20.callbacks_checked": 1000, "c20.burst_close_cases": 38, "classes": 70},
+		Floors:         map[string]int64{"c20.connect_cases": 27, "c20.sessions": 230, "c20.inbound": 2000, "c20.callbacks_checked": 1000, "c20.burst_close_cases": 38, "c20.qos2_bursts": 55, "classes": 70},
 		FloorsThorough: map[string]int64{"c20.connect_cases": 27, "c20.sessions": 5500, "classes": 75},
 		Assumptions:    []string{"PINGREQ/PINGRESP barrier as in C12", "filters with empty levels are not generated here (known finding F-C06-1 covers the matcher)"},
 	},
@@ -228,11 +228,11 @@ var plans = map[string]*plan{
 	"C17": {
 		Level: "exploration",
 		Rule: "concurrent real-time workload on a real broker over net.Pipe with 16 KiB rings and broker-side read fragmentation: 2..12 raw publishers (own + shared topics, QoS 0/1/2, payloads 17/100/4096/8152 bytes so packets straddle the ring end) to 2..6 stable subscribers (fast, slow, bursty readers; granted QoS 0/1/2), concurrent Server.Publish/Subscribe/Unsubscribe goroutines, retained updates, and churning subscribers being torn down while deliveries are addressed to them; GOMAXPROCS 2/4/16; also under the race detector. " +
-			"Oracle: every byte every subscriber receives is consumed by the strict reference parser with no framing error, every PUBLISH payload passes its CRC, and per (subscriber, publisher, topic, published QoS) the embedded sequence numbers are strictly increasing. Client role: a library Client queues 1..3 PUBLISH packets of 9 KiB..200 KiB and calls Disconnect at once; the raw bytes a TCP peer receives must be a prefix of those whole packets, with the DISCONNECT on a packet boundary. distinct = run configurations.",
-		Quick:          []batchSpec{{Test: "TestC17", N: 10, Timeout: 15 * m}, {Test: "TestC17", N: 6, Race: true, Timeout: 20 * m}, {Test: "TestC17Client", N: 2, Timeout: 15 * m}, {Test: "TestC01Backpressure", N: 2, Timeout: 15 * m}},
-		Thorough:       []batchSpec{{Test: "TestC17", N: 16, Timeout: 60 * m}, {Test: "TestC17", N: 16, Race: true, Timeout: 60 * m}, {Test: "TestC17Client", N: 8, Timeout: 30 * m}, {Test: "TestC01Backpressure", N: 8, Timeout: 30 * m}},
+			"Oracle: every byte every subscriber receives is consumed by the strict reference parser with no framing error, every PUBLISH payload passes its CRC, and per (subscriber, publisher, topic, published QoS) the embedded sequence numbers are strictly increasing. Client role: a library Client queues 1..3 PUBLISH packets of 9 KiB..200 KiB and calls Disconnect at once; the raw bytes a TCP peer receives must be a prefix of those whole packets, with the DISCONNECT on a packet boundary. QoS 2 bursts (synctest): after 0..39 exchanges completed one by one a publisher has 17..76 QoS 2 publishes open at once and releases them in order; a QoS 2 and a QoS 0 subscriber must receive all messages in publishing order. distinct = run configurations.",
+		Quick:          []batchSpec{{Test: "TestC17", N: 10, Timeout: 15 * m}, {Test: "TestC17", N: 6, Race: true, Timeout: 20 * m}, {Test: "TestC17Client", N: 2, Timeout: 15 * m}, {Test: "TestC01Backpressure", N: 2, Timeout: 15 * m}, {Test: "TestC17Qos2Burst", N: 4, Timeout: 15 * m}},
+		Thorough:       []batchSpec{{Test: "TestC17", N: 16, Timeout: 60 * m}, {Test: "TestC17", N: 16, Race: true, Timeout: 60 * m}, {Test: "TestC17Client", N: 8, Timeout: 30 * m}, {Test: "TestC01Backpressure", N: 8, Timeout: 30 * m}, {Test: "TestC17Qos2Burst", N: 8, Timeout: 30 * m}},
 		EvalStats:      []string{"c17.runs"},
-		Floors:         map[string]int64{"c17.runs": 50, "c17.published": 20000, "c17.received": 100000, "c17.order_keys": 5000, "c17.churned_connections": 2000, "c17.client_runs": 55, "classes": 40},
+		Floors:         map[string]int64{"c17.runs": 50, "c17.published": 20000, "c17.received": 100000, "c17.order_keys": 5000, "c17.churned_connections": 2000, "c17.client_runs": 55, "c17.qos2_bursts": 190, "classes": 40},
 		FloorsThorough: map[string]int64{"c17.runs": 700, "c17.published": 1000000, "classes": 200},
 		Post:           func(r *result, wd string) { parseRaceLogs(r, wd) },
 		Assumptions:    []string{"quiescence by protocol barriers (publisher acks, then PINGREQ/PINGRESP on every subscriber): exact because fan-out is synchronous and rings are FIFO", "race reports in this check's -race runs are reported under their C18 signature"},
